@@ -1,6 +1,111 @@
+(* Props/C09.v -- Connection lifecycle events pair up and per-destination concurrency is bounded.
+   Model: Model/ConnHandler.v (mitmproxy/proxy/server.py ConnectionHandler as tasks at their await
+   points).  All theorems quantify over every layer script sc (what the top layer answers to its
+   n-th event) and every schedule l (hook/read/connect completions with any result, idle timeout,
+   broken writers, and ANY ready task chosen to run next; an item that is not enabled is a no-op).
+   client_hooks / server_hooks are the hook calls in call order.
+   The full-strength property is FALSE of the faithful model (and of the real class: known findings
+   cancel-at-semaphore, cancel-in-server-connect-hook, cancel-in-server-connected-hook,
+   open-after-teardown): see the _refuted theorems; each _partial theorem has as its guard exactly
+   the complement of those findings. *)
 From Coq Require Import List Bool Arith.
-From MV Require Import Model.ConnHandler.
+From MV Require Import Model.ConnHandler Proofs.ConnHandlerPair Proofs.ConnHandlerSem Proofs.ConnHandlerTeardown
+                       Proofs.ConnHandlerWitness Proofs.ConnHandlerMain.
 Import ListNotations.
-Theorem C09_stub : mainpc (init []) = M0.
-Proof. reflexivity. Qed.
-Print Assumptions C09_stub.
+
+(* client_connected fires once, first; client_disconnected once, afterwards; both have fired when
+   handle_client has returned (full strength, no guard) *)
+Theorem C09_client_hooks_paired : forall sc l, let s := run (init sc) l in
+  (client_hooks s = [] \/ client_hooks s = [HClientConnected] \/
+   client_hooks s = [HClientConnected; HClientDisconnected]) /\
+  (main_done s -> client_hooks s = [HClientConnected; HClientDisconnected]).
+Proof. exact client_hooks_paired. Qed.
+Print Assumptions C09_client_hooks_paired.
+
+(* at every moment the hooks fired for an upstream connection are a prefix of
+   server_connect (server_connect_error | server_connected server_disconnected), and they are a
+   function of where its task stands (full strength, no guard) *)
+Theorem C09_server_hooks_grammar : forall sc l c, 1 <= c -> let s := run (init sc) l in
+  grammar_prefix (server_hooks s c) /\ server_hooks s c = rev (rword (c_pc (getc s c))).
+Proof. exact server_hooks_grammar_pc. Qed.
+Print Assumptions C09_server_hooks_grammar.
+
+(* REFUTED: a finished attempt whose word is incomplete (six connections to one address, the sixth
+   is cancelled while it waits for the semaphore: server_connect and nothing else) *)
+Theorem C09_server_pairing_refuted : exists sc l c x, 1 <= c /\ let s := run (init sc) l in
+  task_exit s c x /\ ~ complete_word (server_hooks s c).
+Proof. exact server_pairing_refuted. Qed.
+Print Assumptions C09_server_pairing_refuted.
+
+(* REFUTED: server_connected without server_disconnected although handle_client returned *)
+Theorem C09_connected_without_disconnected_refuted : exists sc l c x, 1 <= c /\ let s := run (init sc) l in
+  main_done s /\ task_exit s c x /\ server_hooks s c = [HServerConnect; HServerConnected].
+Proof. exact connected_without_disconnected. Qed.
+Print Assumptions C09_connected_without_disconnected_refuted.
+
+(* PARTIAL: unless the task was cancelled at one of the three unprotected await points
+   (server_connect hook, semaphore, server_connected hook), a finished attempt fired nothing, or
+   connect + connect_error, or connect + connected + disconnected *)
+Theorem C09_server_pairing_partial : forall sc l c x, 1 <= c -> let s := run (init sc) l in
+  task_exit s c x -> ~ lost x -> complete_word (server_hooks s c).
+Proof. exact server_pairing_partial. Qed.
+Print Assumptions C09_server_pairing_partial.
+
+(* at most five tasks per address are inside the async-with body (connecting, connected, or
+   waiting for their disconnect hook), in every reachable state (full strength, no guard);
+   and value + inside + woken waiters = 5 *)
+Theorem C09_at_most_five : forall sc l b, open_count b (run (init sc) l) <= 5.
+Proof. exact at_most_five. Qed.
+Print Assumptions C09_at_most_five.
+
+Theorem C09_semaphore_accounting : forall sc l b, SS b (run (init sc) l) = 5.
+Proof. exact sem_invariant. Qed.
+Print Assumptions C09_semaphore_accounting.
+
+(* REFUTED / PARTIAL: open sockets per address.  Six writers to one address can be open at once
+   when a socket was leaked by a cancelled server_connected hook; without such a leak at most five *)
+Theorem C09_open_sockets_refuted : exists sc l b, let s := run (init sc) l in open_writers b s = 6.
+Proof. exact open_sockets_refuted. Qed.
+Print Assumptions C09_open_sockets_refuted.
+
+Theorem C09_open_sockets_partial : forall sc l b, let s := run (init sc) l in
+  leaked b s = 0 -> open_writers b s <= 5.
+Proof. exact open_sockets_partial. Qed.
+Print Assumptions C09_open_sockets_partial.
+
+Theorem C09_open_sockets_bound : forall sc l b, let s := run (init sc) l in open_writers b s <= 5 + leaked b s.
+Proof. exact open_writers_bound. Qed.
+Print Assumptions C09_open_sockets_bound.
+
+(* REFUTED: an open writer remains after handle_client returned -- (a) a connection that existed
+   at the final snapshot (c < n), leaked by the server_connected-hook cancellation; (b) a
+   connection opened by the layer after the snapshot (n <= c), never cancelled nor awaited *)
+Theorem C09_cleanup_refuted_leak : exists sc l n c, let s := run (init sc) l in
+  main_done s /\ teardown_n s = Some n /\ 1 <= c /\ c < n /\ c_writer (getc s c) = WOpen.
+Proof. exact cleanup_refuted_leak. Qed.
+Print Assumptions C09_cleanup_refuted_leak.
+
+Theorem C09_cleanup_refuted_late : exists sc l n c, let s := run (init sc) l in
+  main_done s /\ teardown_n s = Some n /\ n <= c /\ c_writer (getc s c) = WOpen.
+Proof. exact cleanup_refuted_late. Qed.
+Print Assumptions C09_cleanup_refuted_late.
+
+(* PARTIAL: once handle_client has returned, no upstream connection that existed at its final
+   snapshot of transports has an open writer, unless its server_connected hook was cancelled;
+   and each such connection is past handle_connection *)
+Theorem C09_cleanup_partial : forall sc l n c, let s := run (init sc) l in
+  main_done s -> teardown_n s = Some n -> 1 <= c -> c < n ->
+  ~ task_exit s c XLostConnectedHook -> c_writer (getc s c) <> WOpen.
+Proof. exact cleanup_partial. Qed.
+Print Assumptions C09_cleanup_partial.
+
+(* non-vacuity: one refused and one successful connection, data, EOF, idle timeout, clean shutdown *)
+Theorem C09_nonvacuous :
+  let s := run (init [[COpen (Some 0); COpen (Some 1)]]) w_clean in
+  mainpc s = MDone 0 /\ rev (cproj (trace s)) = [HClientConnected; HClientDisconnected] /\
+  rev (proj 1 (trace s)) = [HServerConnect; HServerConnectError] /\
+  rev (proj 2 (trace s)) = [HServerConnect; HServerConnected; HServerDisconnected] /\
+  c_pc (getc s 1) = PDone (XErr false) /\ c_pc (getc s 2) = PDone (XClosed true) /\
+  c_writer (getc s 2) = WClosed /\ semval s 0 = 5 /\ semval s 1 = 5.
+Proof. exact w_clean_ok. Qed.
+Print Assumptions C09_nonvacuous.
